@@ -5,7 +5,7 @@ import os
 from fractions import Fraction as Fr
 
 from ..env import get_env, REPO
-from ..ref import PREFIX
+from ..ref import PREFIX, split_unit
 
 PROPERTY = 'C18'
 BOUNDS = ("12 scenario scripts over the public API (construction, transfer by volume/mass/moles, create_solution with "
@@ -175,6 +175,9 @@ class Run:
             self.see_container('B', res['B'])
             self.obs.append(("used(salt)[mmol]", r.get_substance_used(salt, unit='mmol', destinations=[B]), 'out', 'mmol'))
             self.obs.append(("used(dmso,fill)[g]", r.get_substance_used(dmso, 'fill', unit='g', destinations=[B]), 'out', 'g'))
+            # the same answers read out in finer units (a resolution lost inside the tracking code shows here first)
+            self.obs.append(("used(salt)[umol]", r.get_substance_used(salt, unit='umol', destinations=[B]), 'fine', 'umol'))
+            self.obs.append(("used(dmso,fill)[mg]", r.get_substance_used(dmso, 'fill', unit='mg', destinations=[B]), 'fine', 'mg'))
             fl = r.get_container_flows(A, unit='mL')
             self.obs.append(("flows(A).out[mL]", fl['out'], 'out', 'mL'))
             self.obs.append(("flows(A).in[mL]", fl['in'], 'out', 'mL'))
@@ -232,12 +235,19 @@ def h_compare(h):
         elif kind == 'out':
             dig = base.config.precisions.get(unit, base.config.precisions['default'])
             slack = h.rs(Fr(1, 10**dig) + Fr(1, 10**3))
+        elif kind == 'fine':
+            # one unit in the last displayed place plus 100 roundings at the coarser storage resolution (a mole of any
+            # substance of the library weighs / fills less than 200 g / mL); no relative term
+            dig = base.config.precisions.get(unit, base.config.precisions['default'])
+            pfx, ubase = split_unit(unit)
+            err = {'mol': 100 * mol_res, 'g': 100 * mol_res * 200, 'L': 100 * (vol_res + mol_res * Fr(1, 5))}[ubase]
+            slack = h.rs(Fr(1, 10**dig) + err / PREFIX[pfx])
         else:
             slack = h.rs(Fr(1, 10**3))
         # relative resolution of the coarser configuration on the smallest amounts the scenarios handle
         # (1 mg of DMSO = 1.3e-5 mol, 1 uL = 1e-6 L)
         rel = h.rs(Fr(1, 10**5) + 100 * mol_res / Fr(1, 10**5) + 100 * vol_res / Fr(1, 10**6))
-        if h.mode == 'native' and isinstance(xa, (int, float)) and isinstance(xb, (int, float)):
+        if kind != 'fine' and h.mode == 'native' and isinstance(xa, (int, float)) and isinstance(xb, (int, float)):
             slack = float(slack) + float(rel) * max(abs(float(xa)), abs(float(xb)))
         h.require('same-answer', h.eq(xa, xb, slack), region=kind,
                   detail=f"{p['scenario']}: {label} differs between the shipped configuration and ({m}, {v}, {prec})")
